@@ -65,3 +65,63 @@ def appended(p, name):
         else:
             out.append("*" + vt(val))
     return out
+
+
+def split_top(text, sep=","):
+    """split at top-level separators (outside brackets and string literals)"""
+    out, depth, cur, quote, prev = [], 0, [], None, ""
+    for ch in text:
+        if quote:
+            cur.append(ch)
+            if ch == quote and prev != "\\":
+                quote = None
+        elif ch in "'\"":
+            quote = ch
+            cur.append(ch)
+        elif ch in "([{":
+            depth += 1
+            cur.append(ch)
+        elif ch in ")]}":
+            depth -= 1
+            cur.append(ch)
+        elif ch == sep and depth == 0:
+            out.append("".join(cur).strip())
+            cur = []
+        else:
+            cur.append(ch)
+        prev = ch
+    if cur:
+        out.append("".join(cur).strip())
+    return out
+
+
+def dict_fields(text):
+    """`dict:{'a': X, 'b': Y}` -> {'a': 'X', 'b': 'Y'} (top-level string keys only); None if not a display"""
+    if text.startswith("dict:"):
+        text = text[5:]
+    text = text.strip()
+    if not (text.startswith("{") and text.endswith("}")):
+        return None
+    out = {}
+    for item in split_top(text[1:-1]):
+        kv = split_top(item, ":")
+        if len(kv) < 2:
+            return None
+        k = kv[0].strip()
+        if len(k) >= 2 and k[0] in "'\"" and k[-1] == k[0]:
+            out[k[1:-1]] = item[item.index(":") + 1 :].strip() if len(kv) == 2 else ":".join(item.split(":")[1:]).strip()
+    return out
+
+
+def call_args(text, fname):
+    """`fname(a, b, k=c)` -> (['a','b'], {'k':'c'}); None if text is not that call"""
+    if not (text.startswith(fname + "(") and text.endswith(")")):
+        return None
+    pos, kw = [], {}
+    for a in split_top(text[len(fname) + 1 : -1]):
+        kv = split_top(a, "=")
+        if len(kv) == 2 and kv[0].isidentifier():
+            kw[kv[0]] = kv[1]
+        else:
+            pos.append(a)
+    return pos, kw
